@@ -4,7 +4,7 @@
 patch="$1"; name="$2"; shift 2
 out=/verif/seeded/benign-$name; mkdir -p "$out"; cp "$patch" "$out/patch.diff"
 [ -f "$(dirname "$patch")/notes.md" ] && cp "$(dirname "$patch")/notes.md" "$out/notes.md"
-cd /repo && git apply "$out/patch.diff" || { echo "PATCH DOES NOT APPLY"; exit 2; }
+cd /repo && git apply "$out/patch.diff" 2>/dev/null || git apply -3 "$out/patch.diff" || { echo "PATCH DOES NOT APPLY"; git checkout -q -- .; exit 2; }
 res=""
 for p in "$@"; do
   (cd /verif && VSIM_NO_EVIDENCE=1 ./check "$p" quick > "$out/check-$p.log" 2>&1); st=$?
